@@ -28,6 +28,10 @@ def new_entry(I, log, op, cid_term=None):
         g['entry_ids'] = n
         cid_term = T.lit_bytes(b'entry-cid-%d' % n)
     e = Native('entry', t=cid_term, idx=k, op=op, as_iface=True)
+    try:
+        op.entry = Iface(-10, e)
+    except Exception:
+        pass
     log.entries.append(e)
     return Iface(-10, e)
 
@@ -81,7 +85,7 @@ def install(I):
     M[('operation', 'GetValue')] = lambda I, a, ins: a[0].value
     M[('operation', 'GetKey')] = lambda I, a, ins: a[0].key
     M[('operation', 'GetOperation')] = lambda I, a, ins: a[0].op
-    M[('operation', 'GetEntry')] = lambda I, a, ins: None
+    M[('operation', 'GetEntry')] = lambda I, a, ins: getattr(a[0], 'entry', None)
 
     # ---------------- BaseStore (keyed by the identity of the embedded struct)
     def bs_state(I, p):
